@@ -117,6 +117,15 @@ int main() {
         // noise of the public rows must not depend on the secret: error of the body-block rows of every bootstrapping-key sample of the
         // exported key (phase under the ring key minus s_i*h_j at coefficient 0), pooled by the value of the encrypted key bit;
         // and of the key-switching rows (h >= 1) pooled by the value of the ring-key coefficient they encode
+        // every row that is a fresh encryption has its own mask: consecutive key-switching rows (h >= 1) and consecutive bootstrapping-key
+        // rows never share one
+        long dupmask = 0;
+        { const LweKeySwitchKey *ks2 = ck2->bk->ks; const long nrows = (long) ks2->n * ks2->t * ks2->base;
+          for (long r = 1; r < nrows; r++) if ((r % ks2->base) != 0 && ((r - 1) % ks2->base) != 0 && memcmp(ks2->ks0_raw[r].a, ks2->ks0_raw[r - 1].a, 4 * (size_t) n) == 0) dupmask++;
+          const TGswParams *gp = ck2->bk->bk_params;
+          for (int i = 0; i < n; i++) for (int q = 1; q < gp->kpl; q++) { bool same = true;
+              for (int u = 0; u < k && same; u++) same = memcmp(ck2->bk->bk[i].all_sample[q].a[u].coefsT, ck2->bk->bk[i].all_sample[q - 1].a[u].coefsT, 4 * (size_t) N) == 0;
+              if (same) dupmask++; } }
         long double q0 = 0, q1 = 0, r0 = 0, r1 = 0; long c0 = 0, c1 = 0, d0 = 0, d1 = 0;
         {
             const TGswParams *gp = ck2->bk->bk_params; const int l = gp->l;
@@ -133,8 +142,8 @@ int main() {
                     int32_t e32 = lwePhase(&ks2->ks[i][j][h], sk->lwe_key) - (int32_t) ((uint32_t) (si * h) << (32 - (j + 1) * bb));
                     long double e = (long double) e32; if (si) { r1 += e * e; d1++; } else { r0 += e * e; d0++; } } }
         }
-        printf("%zu %zu %d %zu %zu %d %d %d %d %d %d %d %d %d %d %d %d %d %d %ld %ld %ld %.0Lf %ld %.0Lf %ld %.0Lf %ld %.0Lf\n", cb.size(), sb.size(), prefix ? 1 : 0, sb.size() - cb.size(), pb.size(), n, N, k,
-               params->tgsw_params->l, params->ks_t, params->ks_basebit, found ? 1 : 0, re_c ? 1 : 0, re_s ? 1 : 0, gates_eq ? 1 : 0, dec_eq ? 1 : 0, fields ? 1 : 0, cross ? 1 : 0, dec_ok ? 1 : 0, clear, unmasked, c0, c0 ? sqrtl(q0 / c0) : 0.0L, c1, c1 ? sqrtl(q1 / c1) : 0.0L, d0, d0 ? sqrtl(r0 / d0) : 0.0L, d1, d1 ? sqrtl(r1 / d1) : 0.0L);
+        printf("%zu %zu %d %zu %zu %d %d %d %d %d %d %d %d %d %d %d %d %d %d %ld %ld %ld %.0Lf %ld %.0Lf %ld %.0Lf %ld %.0Lf %ld %.0f %.0f\n", cb.size(), sb.size(), prefix ? 1 : 0, sb.size() - cb.size(), pb.size(), n, N, k,
+               params->tgsw_params->l, params->ks_t, params->ks_basebit, found ? 1 : 0, re_c ? 1 : 0, re_s ? 1 : 0, gates_eq ? 1 : 0, dec_eq ? 1 : 0, fields ? 1 : 0, cross ? 1 : 0, dec_ok ? 1 : 0, clear, unmasked, c0, c0 ? sqrtl(q0 / c0) : 0.0L, c1, c1 ? sqrtl(q1 / c1) : 0.0L, d0, d0 ? sqrtl(r0 / d0) : 0.0L, d1, d1 ? sqrtl(r1 / d1) : 0.0L, dupmask, params->tgsw_params->tlwe_params->alpha_min * 4294967296., params->in_out_params->alpha_min * 4294967296.);
         fflush(stdout);
         delete_gate_bootstrapping_ciphertext(o2); delete_gate_bootstrapping_ciphertext(o1); delete_gate_bootstrapping_ciphertext_array(3, in);
         delete_gate_bootstrapping_secret_keyset(sk2); delete_gate_bootstrapping_cloud_keyset(ck2); delete_gate_bootstrapping_secret_keyset(sk);
